@@ -1809,20 +1809,11 @@ pub fn c09_linspace_f64() {
 // ---------------------------------------------------------------------------------------------
 // 12. concrete depth-2/3 pipelines (sanity witnesses for the induction argument; thorough tier).
 //     The lags are literal: two symbolic lags behind two boxed stages give no answer in 2400 s
-//     (DESIGN: none in 900 s). `winsorize` itself (median / sigma, N = 2) exhausts 12 GB after
+//     (DESIGN: none in 900 s), and vshift over vshift exhausts 12 GB even with literal lags —
+//     the vshift-over-arbitrary-inner case is c09_vshift_total_abs / c09_vshift_collect_abs. `winsorize` itself (median / sigma, N = 2) exhausts 12 GB after
 //     30 min and is not run; the iterator it returns is `iter_cast::<f64>().vclip(min, max)`,
 //     which c09_winsor_tail_n2 covers for arbitrary bounds.
 // ---------------------------------------------------------------------------------------------
-
-pub fn pipe_vshift2<const N: usize>() -> bool {
-    let x: Vec<Option<i32>> = kani::any::<[Option<i32>; N]>().to_vec();
-    let f1: Option<Option<i32>> = kani::any();
-    let f2: Option<Option<i32>> = kani::any();
-    observe(COLLECT | TOTAL, || x.titer().vshift(1, f1).vshift(-1, f2), N + 1, Some(N));
-    observe(COLLECT | TOTAL, || x.titer().vshift(-1, f1).vshift(3, f2), N + 1, Some(N));
-    observe(TOTAL, || x.titer().vshift(0, f1).vshift(1, f2), N + 1, Some(N));
-    true
-}
 
 pub fn pipe_fill_vclip<const N: usize>() -> bool {
     let x: Vec<Option<i32>> = kani::any::<[Option<i32>; N]>().to_vec();
@@ -1832,13 +1823,6 @@ pub fn pipe_fill_vclip<const N: usize>() -> bool {
     observe(CW, || x.titer().fill(d).vclip(Some(lo), Some(hi)), N + 1, Some(N));
     observe(COLLECT | TOTAL, || x.titer().ffill(None).vclip(Some(lo), None).vshift(1, None), N + 1, Some(N));
     true
-}
-
-#[cfg(feature = "thorough")]
-#[kani::proof]
-#[kani::unwind(7)]
-pub fn c09_pipe_vshift_vshift_n2() {
-    witness(pipe_vshift2::<2>());
 }
 
 #[cfg(feature = "thorough")]
